@@ -49,17 +49,26 @@ def tree_hash():
     return h.hexdigest()
 
 
+def proof_modules(prop):
+    """the property's proof modules: AM/Proofs/<prop>.lean and AM/Proofs/<prop><Suffix>.lean"""
+    fs = sorted(glob.glob(os.path.join(LEAN, "AM", "Proofs", prop + "*.lean")))
+    return [os.path.basename(f)[:-5] for f in fs]
+
+
 def proof_theorems(prop):
-    """names of the property theorems in AM/Proofs/<prop>.lean (comments stripped)"""
-    p = os.path.join(LEAN, "AM", "Proofs", prop + ".lean")
-    if not os.path.exists(p):
+    """names of the property theorems in the property's proof modules (comments stripped)"""
+    mods = proof_modules(prop)
+    if not mods:
         return None
-    src = open(p).read()
-    src = re.sub(r"/-.*?-/", "", src, flags=re.S)
-    src = re.sub(r"--.*", "", src)
-    ns = re.findall(r"^namespace\s+(\S+)", src, flags=re.M)
-    prefix = (ns[0] + ".") if ns else ""
-    return [prefix + m for m in re.findall(r"^theorem\s+(\S+)", src, flags=re.M)]
+    out = []
+    for m in mods:
+        src = open(os.path.join(LEAN, "AM", "Proofs", m + ".lean")).read()
+        src = re.sub(r"/-.*?-/", "", src, flags=re.S)
+        src = re.sub(r"--.*", "", src)
+        ns = re.findall(r"^namespace\s+(\S+)", src, flags=re.M)
+        prefix = (ns[0] + ".") if ns else ""
+        out += [prefix + t for t in re.findall(r"^theorem\s+(\S+)", src, flags=re.M)]
+    return out
 
 
 def forbidden_hits():
@@ -126,19 +135,24 @@ def prepare(force=False, verbose=False):
         rc, out = sh(["lake", "build", "amdriver"], cwd=LEAN)
         st["driver_ok"] = rc == 0 and os.path.exists(DRIVER)
         st["log"]["driver"] = out[-6000:]
-        mods = [p for p in PROPS if os.path.exists(os.path.join(LEAN, "AM", "Proofs", p + ".lean"))]
+        mods = [p for p in PROPS if proof_modules(p)]
         st["proofs"] = {}
         if mods:
-            rc, out = sh(["lake", "build"] + ["AM.Proofs." + m for m in mods], cwd=LEAN)
+            allmods = [x for m in mods for x in proof_modules(m)]
+            rc, out = sh(["lake", "build"] + ["AM.Proofs." + x for x in allmods], cwd=LEAN)
             st["log"]["proofs"] = out[-20000:]
             for m in mods:
                 # a module is built iff lake did not report it as failed
-                failed = re.search(r"(✖|error).*AM\.Proofs\.%s\b" % m, out) is not None or \
-                    re.search(r"^- AM\.Proofs\.%s$" % m, out, flags=re.M) is not None
-                olean = os.path.join(LEAN, ".lake", "build", "lib", "lean", "AM", "Proofs", m + ".olean")
-                st["proofs"][m] = {"built": (not failed) and os.path.exists(olean)}
-                if failed:
-                    errs = [l for l in out.splitlines() if l.startswith("error") and ("Proofs/%s.lean" % m in l or "AM/" in l)]
+                built, errs = True, []
+                for x in proof_modules(m):
+                    failed = re.search(r"(✖|error).*AM\.Proofs\.%s\b" % x, out) is not None or \
+                        re.search(r"^- AM\.Proofs\.%s$" % x, out, flags=re.M) is not None
+                    olean = os.path.join(LEAN, ".lake", "build", "lib", "lean", "AM", "Proofs", x + ".olean")
+                    if failed or not os.path.exists(olean):
+                        built = False
+                        errs += [l for l in out.splitlines() if l.startswith("error") and "AM/" in l][:10]
+                st["proofs"][m] = {"built": built, "modules": proof_modules(m)}
+                if not built:
                     st["proofs"][m]["errors"] = errs[:20]
         # (c) axiom audit per proof module
         st["forbidden"] = forbidden_hits()
@@ -151,7 +165,7 @@ def prepare(force=False, verbose=False):
                 continue
             af = os.path.join(WORK, "audit_%s.lean" % m)
             with open(af, "w") as fh:
-                fh.write("import AM.Proofs.%s\n" % m + "".join("#print axioms %s\n" % t for t in thms))
+                fh.write("".join("import AM.Proofs.%s\n" % x for x in proof_modules(m)) + "".join("#print axioms %s\n" % t for t in thms))
             rc, out = sh(["lake", "env", "lean", af], cwd=LEAN)
             cur = None
             for line in out.replace("\n  ", " ").splitlines():
